@@ -6,6 +6,7 @@ import (
 	"context"
 
 	"github.com/sassoftware/relic/v8/config"
+	"github.com/sassoftware/relic/v8/internal/activation/activatecmd"
 )
 
 // ZZNew builds a WorkerToken that talks to addr with the given cookie without
@@ -21,6 +22,8 @@ func ZZNew(cfg *config.Config, tokenName, addr, cookie string) (*WorkerToken, er
 		tconf:       tconf,
 		cookie:      cookie,
 		addr:        addr,
+		fdset:       new(activatecmd.ListenerSet),
+		notify:      new(activatecmd.Listener),
 		ctx:         ctx,
 		cancel:      cancel,
 		procs:       make(map[int]struct{}),
